@@ -296,6 +296,45 @@ def materialise(spec) -> Materialised:
     return Materialised(spec, classes, module, mh_objects)
 
 
+def redeclare(mat: Materialised, cname: str, fname: str, new_te):
+    """Re-declares a field of an already materialised production the documented way
+    (Prod.__init__.__annotations__[field] = T before the next grammar extraction) and
+    updates mat.spec accordingly. Returns the new spec (a deep copy)."""
+    import copy
+
+    spec = copy.deepcopy(mat.spec)
+    for c in spec["concretes"]:
+        if c["name"] == cname:
+            c["fields"] = [[fn, (new_te if fn == fname else ft)] for fn, ft in c["fields"]]
+    cls = mat.classes[cname]
+    k = sum(1 for n in vars(mat.module) if n.startswith("_mh_"))
+    counter = itertools.count(k)
+
+    def ann(t):
+        kk = t[0]
+        if kk in BASES:
+            return kk
+        if kk == "ref":
+            return t[1]
+        if kk == "list":
+            return f"list[{ann(t[1])}]"
+        if kk == "tuple":
+            return "tuple[" + ", ".join(ann(x) for x in t[1]) + "]"
+        if kk == "union":
+            return "Union[" + ", ".join(ann(x) for x in t[1]) + "]"
+        if kk == "ann":
+            obj = build_refinement(t[2])
+            nm = f"_mh_{next(counter)}"
+            setattr(mat.module, nm, obj)
+            mat.mh_objects.append((cname, fname, t[2], obj))
+            return f"Annotated[{ann(t[1])}, {nm}]"
+        raise ValueError(t)
+
+    cls.__init__.__annotations__[fname] = ann(new_te)
+    mat.spec = spec
+    return spec
+
+
 # --------------------------------------------------------------------------------------
 # Hypothesis strategy
 # --------------------------------------------------------------------------------------
@@ -338,6 +377,7 @@ class Flags:
         max_list_size=3,
         permute_considered=True,
         listops=True,  # ListSizeBetween (with custom mutate/crossover) vs LSBWLO only
+        nested_generics=True,  # list[Union[..]], list[tuple[..]]
     )
 
     def __init__(self, **kw):
@@ -483,7 +523,15 @@ def _class_field(draw, fl: Flags, targets: list[str], abstracts: list[str]):
     if k == "list":
         if not fl.list_of_abstract and ref[1] in abstracts:
             return ref
-        return draw(_list_of(fl, ref))
+        elem = ref
+        if fl.nested_generics and draw(st.integers(0, 3)) == 0:
+            # list[Union[A, B]], list[tuple[A, base]] ... (generic inside a list)
+            other = draw(st.sampled_from(targets).map(lambda n: ["ref", n])) if (fl.class_fields_only or draw(st.booleans())) else draw(_base_type(fl))
+            if fl.unions and other != ref and draw(st.booleans()):
+                elem = ["union", [ref, other]]
+            elif fl.tuples:
+                elem = ["tuple", [ref, other]]
+        return draw(_list_of(fl, elem))
     if k == "union":
         other = draw(
             st.one_of(
@@ -532,6 +580,13 @@ def specs(draw, fl: Flags | None = None):
     def leaf_fields():
         if fl.class_fields_only:
             return []
+        if fl.dependent and draw(st.integers(0, 4)) == 0:
+            # a leaf production carrying a dependent pair (possibly infeasible in some contexts):
+            # this is how a non-terminal whose ONLY production can fail comes about
+            if draw(st.booleans()):
+                lo = 0 if fl.infeasible else 1
+                return [["d0", ["ann", ["int"], ["IntRange", lo, 2]]], ["d1", ["ann", ["str"], ["Dependent", "d0", ["varrange_prefix", ["x", "y"]]]]]]
+            return [["d0", ["ann", ["int"], ["IntRange", 0, 2]]], ["d1", ["ann", ["int"], ["Dependent", "d0", ["intrange_from", draw(st.integers(0, 2))]]]]]
         n = draw(st.integers(0, min(2, fl.max_fields)))
         return [[f"f{j}", draw(_leaf_field(fl))] for j in range(n)]
 
@@ -569,7 +624,17 @@ def specs(draw, fl: Flags | None = None):
             else:
                 elem = draw(st.sampled_from([["ref", n] for n in targets] + [["ann", ["int"], ["IntRange", 0, 1]]]))
                 dep = ["ann", ["list", elem], ["Dependent", "d0", ["listsize_upto"]]]
-            c["fields"] = [["d0", sib], ["d1", dep]] + fields[: max(0, fl.max_fields - 2)]
+            rest = fields[: max(0, fl.max_fields - 2)]
+            cut = draw(st.integers(0, len(rest)))
+            pre = draw(st.integers(0, cut))
+            # sibling first, the dependent field anywhere after it; other fields in between
+            between = rest[pre:cut]
+            # a sibling between d0 and d1 that is a concrete production with a field of the same
+            # name d0 (name clash between a node's fields and those of a nested node)
+            clash = [x["name"] for x in concretes[:-1] if any(fn == "d0" for fn, _ in x["fields"])]
+            if clash and draw(st.booleans()):
+                between = between + [["n0", ["ref", draw(st.sampled_from(clash))]]]
+            c["fields"] = rest[:pre] + [["d0", sib]] + between + [["d1", dep]] + rest[cut:]
         elif fl.infeasible and fl.user_mh and len(fields) >= 1 and draw(st.integers(0, 2)) == 0:
             sib = ["ann", ["int"], ["IntRange", 0, 1]]
             dep = ["ann", draw(st.sampled_from([["int"], ["ref", draw(st.sampled_from(abs_names))]])) if not fl.finite_choice else ["ref", draw(st.sampled_from(abs_names))], ["UserMH", "raise_if", "d0", draw(st.integers(0, 1))]]
